@@ -9,7 +9,7 @@ SPEC = {
                  'three stages, messages): the same symbolic accepted table once plainly indexed and once with arbitrary '
                  '(repeated) symbolic index labels / extra column / permuted columns / other dtypes; equality of every table '
                  'entry, per-hit assignment and message decided per path by z3',
-    'bounds': {'quick': 'accepted tables of <= 2 hits (one ceilometer; two ceilometers for the plain relabelling; first and second hits, any heights incl. NaN), index labels any '
+    'bounds': {'quick': 'accepted tables of <= 2 hits (one ceilometer; two ceilometers for the plain relabelling; first and second hits, any heights incl. NaN; one variant with type-0 rows that carry a height), index labels any '
                         'ints (repeats allowed), MSA symbolic or None, 5 layout variants',
                'thorough': 'every variant with and without MSA at 2 hits of one ceilometer; 2 ceilometers for three variants'},
     'outside': 'dtype coercions beyond the modelled ones (type as integral float, dt as int, ceilo as object): what astype does '
@@ -33,7 +33,10 @@ def _cmp(a, b):
 
 
 def h_ingest(E, N, C, pvar, variant):
-    T = Table(E, N, C, tmin=1, tmax=2)
+    # variant 6: plain relabelling of a table that may hold type-0 rows *with* a height (accepted with a warning only)
+    T = Table(E, N, C, tmin=0 if variant == 6 else 1, tmax=2)
+    if variant == 6:
+        E.cover('a non-detection row carrying a height', Or([And(t == 0, Not(isnan(h))) for t, h in zip(T.type, T.height)]))
     prms = pipeline.sym_prms(E, pvar)
     kA, chA, stA = pipeline.run_pipeline(T.frame(), prms)
     idx = [E.int('idx%d' % i) for i in range(N)]
@@ -75,8 +78,8 @@ def h_ingest(E, N, C, pvar, variant):
 
 
 HARNESSES = [
-    H('H-ingest', h_ingest, quick=[(1, 1, 2, 0), (2, 1, 0, 0), (2, 1, 2, 0), (2, 1, 2, 1), (2, 1, 0, 2), (2, 1, 2, 4), (2, 1, 2, 5), (2, 2, 0, 0)],
-      thorough=[(1, 1, 2, 0)] + [(2, 1, p, v) for p in (0, 2) for v in range(6)] + [(2, 2, 0, 0), (2, 2, 0, 5), (2, 2, 2, 0)],
+    H('H-ingest', h_ingest, quick=[(1, 1, 2, 0), (2, 1, 0, 0), (2, 1, 2, 0), (2, 1, 2, 1), (2, 1, 0, 2), (2, 1, 2, 4), (2, 1, 2, 5), (2, 1, 0, 6), (2, 2, 0, 0)],
+      thorough=[(1, 1, 2, 0)] + [(2, 1, p, v) for p in (0, 2) for v in range(6)] + [(2, 1, 0, 6), (2, 1, 2, 6), (2, 2, 0, 0), (2, 2, 0, 5), (2, 2, 2, 0)],
       float_model='R', scripted=True,
       cover=['repeated index labels', 'non-decreasing repeated labels', 'shuffled labels', 'a hit cropped above the MSA'],
       doc='whole chain twice: RangeIndex frame vs relabelled / re-laid-out frame of the same values: identical results'),
